@@ -208,9 +208,10 @@ def body_call(rec, c):
             rec.check(bool(np.all(np.any(v != 0, axis=1))), f"{engine}:atom-left-without-velocity", f"{v.tolist()} masses {masses.tolist()} {info}")
         # kinetic energy bookkeeping
         kin_file = kinetic(engine, masses, v)
-        # velocities are written with 9 decimals (xyz, g96): |d kin| <= sum m |v| dv
+        # velocities are written with 9 decimals (xyz, g96): |d kin| <= sum m (|v| dv + dv^2 / 2)
         dv = {"lammps": 0.0, "cp2k": 5e-10, "turtlemd": 5e-10, "gromacs": 5e-10, "ase": 0.0}[engine]
-        ktol = 2 * dv * float(np.sum(masses[:, None] * np.abs(v))) + 1e-9 * abs(kin_file) + 1e-30
+        # (second-order term included: a velocity that rounds to 0.000000000 in the file still carries m dv^2 / 2)
+        ktol = 2 * float(np.sum(masses[:, None] * (np.abs(v) * dv + 0.5 * dv * dv))) + 1e-9 * abs(kin_file) + 1e-30
         rec.check(abs(kin_new - kin_file) <= ktol, f"{engine}:kin_new-differs-from-written-velocities", f"kin_new={kin_new!r} from file {kin_file!r} zero_momentum={zm} {info}")
         rec.check(system.ekin == kin_new, f"{engine}:system.ekin-differs-from-kin_new", f"{system.ekin} {kin_new}")
         kin_old = kinetic(engine, masses, before["vel"] if before["vel"] is not None else np.zeros_like(v))
